@@ -7,6 +7,7 @@ import WnVerif.Model.Api
 import WnVerif.Lemmas.DbAux
 import WnVerif.Props.C01
 import WnVerif.Props.C05
+import WnVerif.Props.C09
 namespace WnVerif.Props.C04
 open WnVerif.Db
 
@@ -1347,6 +1348,99 @@ theorem C04_frame_senses_forms_end_to_end (norm : String → String) (dr : Nat) 
     obtain ⟨e, he, her⟩ := List.mem_map.mp (hfkE o ho)
     rw [hEfind o ho, ← her, hfm e he]
   · exact hsd
+
+
+/-! ### frame for `synsets(form)` -/
+
+theorem filterMap_drop_none {α β} (g : α → Option β) (L : List α) :
+    L.filterMap g = (L.filter (fun a => (g a).isSome)).filterMap g := by
+  induction L with
+  | nil => rfl
+  | cons a t ih =>
+    simp only [List.filterMap_cons, List.filter_cons]
+    cases hg : g a with
+    | none => simpa [hg] using ih
+    | some b => simp [hg, ih]
+
+theorem sorted_filterMap_frame {α β} (key : α → Nat) (g' g : α → Option β) (A B : List α)
+    (hB : ∀ b ∈ B, g' b = none) (hA : ∀ a ∈ A, g' a = g a) :
+    (sortBy key (A ++ B)).filterMap g' = (sortBy key A).filterMap g := by
+  rw [filterMap_drop_none g' (sortBy key (A ++ B)), C09.sortBy_filter, List.filter_append]
+  have : B.filter (fun a => (g' a).isSome) = [] := by
+    rw [List.filter_eq_nil_iff]; intro b hb; simp [hB b hb]
+  rw [this, List.append_nil, ← C09.sortBy_filter, ← filterMap_drop_none]
+  apply filterMap_congr_mem
+  intro a ha
+  exact hA a ((C01.sortBy_perm key A).mem_iff.mp ha)
+
+/-- **C04, frame for `synsets(form, …)`, end to end**: adding a plain lexicon outside a non-empty selection `S`
+leaves `synsets()` restricted to `S` unchanged for any id, *any form query*, part of speech and ILI filter -/
+theorem C04_frame_synsets_forms_end_to_end (norm : String → String) (dr : Nat) (db db' : Db) (l : Doc.Lexicon)
+    (h : addLexicon norm dr db l = .ok db') (hplain : l.ext = none) (S : List Nat) (hS : S ≠ [])
+    (hout : nextId (db.lexicons.map (·.rowid)) ∉ S)
+    (hfkL : ∀ o ∈ db.entries, o.lex ∈ db.lexicons.map (·.rowid))
+    (hnE : (db.entries.map (·.rowid)).Nodup) (hnY : (db.synsets.map (·.rowid)).Nodup)
+    (hfkE : ∀ o ∈ db.senses, o.entry ∈ db.entries.map (·.rowid))
+    (hfkY : ∀ o ∈ db.senses, o.synset ∈ db.synsets.map (·.rowid))
+    (hlink : ∀ o ∈ db.synsets, ∀ k, o.ili = some k → k ∈ db.ilis.map (·.rowid))
+    (id : Option String) (forms : List String) (hforms : forms ≠ []) (pos ili : Option String) (n a : Bool) :
+    findSynsets db' id forms pos ili S n a = findSynsets db id forms pos ili S n a := by
+  obtain ⟨t⟩ := addLexicon_split norm dr db db' l h
+  obtain ⟨_, _, hlexid0, hext⟩ := insertLexicon_frame _ _ _ _ _ t.hlex
+  have hlexid : t.lexid = nextId (db.lexicons.map (·.rowid)) := hlexid0
+  have hlid : ∀ i, t.ctx.lid i = t.lexid := by
+    intro i; unfold Ctx.lid AddTrace.ctx; simp [hext hplain]
+  obtain ⟨hE, hY2, srows, hSn, hFs, _⟩ := addLexicon_sense_table t
+  obtain ⟨yrows, extra, hY, hylex, hI⟩ := C01.addLexicon_synset_tables norm dr db db' l h
+  obtain ⟨_, g2, _⟩ := insertLexicon_frame2 _ _ _ _ _ t.hlex
+  have hnY' : (db'.synsets.map (·.rowid)).Nodup := by
+    rw [hY2]; apply insertSynsets_nodupY _ _ _ _ t.hsyn; rw [g2]; exact hnY
+  have hfm := addLexicon_formMatch_frame norm dr db db' l h hplain hfkL hnE forms n a
+  have hres : ∀ o ∈ db.synsets, iliIdOf db' o.ili = iliIdOf db o.ili := by
+    intro o ho
+    have : iliIdOf db' o.ili = iliIdOf { db with ilis := db.ilis ++ extra } o.ili := by
+      unfold iliIdOf; rw [hI]
+    rw [this]
+    exact iliIdOf_append db extra o.ili (hlink o ho)
+  have hSe : forms.isEmpty = false := by simpa [List.isEmpty_iff] using hforms
+  have hnotS : inLexOrAll S t.lexid = false := by
+    rw [hlexid]
+    have h1 := mem_inLexOrAll S hS (nextId (db.lexicons.map (·.rowid)))
+    cases hb : inLexOrAll S (nextId (db.lexicons.map (·.rowid))) with
+    | false => rfl
+    | true => exact absurd (h1.mp hb) hout
+  unfold findSynsets
+  simp only [hSe, Bool.false_eq_true, if_false]
+  congr 1
+  rw [hSn, List.filter_append]
+  have hA : db.senses.filter (fun s => formMatch db' forms n a s.entry) = db.senses.filter (fun s => formMatch db forms n a s.entry) := by
+    apply List.filter_congr
+    intro o ho
+    obtain ⟨e, he, her⟩ := List.mem_map.mp (hfkE o ho)
+    rw [← her, hfm e he]
+  rw [hA]
+  apply sorted_filterMap_frame
+  · -- a sense of the new lexicon leads to a synset of the new lexicon, which is outside S
+    intro r hr
+    have hr' := (List.mem_filter.mp hr).1
+    obtain ⟨p, _, hp⟩ := Forall2.exists_of_mem_right hFs r hr'
+    obtain ⟨x, _, hxm, _, hxl, hxr⟩ := synsetRowY'_some _ _ _ _ hp.2.2.2.2
+    rw [hlid] at hxl
+    have hfind : db'.synsets.find? (fun y => y.rowid == r.synset) = some x := by
+      rw [← hxr]; exact find_by_rowid_Y _ hnY' x hxm
+    rw [hfind]
+    simp [hxl, hnotS]
+  · intro o ho
+    have ho' := (List.mem_filter.mp ho).1
+    obtain ⟨y, hy, hyr⟩ := List.mem_map.mp (hfkY o ho')
+    have e1 : db'.synsets.find? (fun x => x.rowid == o.synset) = db.synsets.find? (fun x => x.rowid == o.synset) := by
+      rw [hY]; exact find?_append_of_exists _ _ _ ⟨y, hy, by simp [hyr]⟩
+    rw [e1]
+    cases hf : db.synsets.find? (fun x => x.rowid == o.synset) with
+    | none => rfl
+    | some x =>
+      have hx := List.mem_of_find?_eq_some hf
+      simp only [hres x hx, synsetData]
 
 
 end WnVerif.Props.C04
